@@ -105,6 +105,8 @@ def make_read(rng, k, ads, C, side=1):
     body = "".join(rng.choice("ACGT") for _ in range(rng.randint(0, 6) if (C.get("_short") and rng.random() < 0.6) else rng.randint(0, 22)))
     if rng.random() < 0.12:
         body = body.lower() if rng.random() < 0.5 else "".join(rng.choice((c, c.lower())) for c in body)
+    if rng.random() < (0.25 if C.get("_dimers") else 0.05):
+        body = ""                      # nothing but adapter: the read is empty after trimming
     seq = body
     if C.get("_tie") and ads:
         # two complete, error-free adapters of equal length: which one is removed is decided by the order
@@ -129,7 +131,7 @@ def make_read(rng, k, ads, C, side=1):
         if ad.get("linked"):
             f, b = parts
             fo = mutate(rng, f, rng.choice((0, 0, 1))) if rng.random() < 0.8 else ""
-            bo = mutate(rng, b, rng.choice((0, 0, 1)))[: rng.randint(3, len(b))] if rng.random() < 0.8 else ""
+            bo = mutate(rng, b, rng.choice((0, 0, 1)))[: rng.randint(3, len(b))] if rng.random() < 0.7 else ""
             seq = fo + body + bo + "".join(rng.choice("ACGT") for _ in range(rng.choice((0, 0, 3))))
             if rng.random() < 0.15:
                 seq = f                      # the 5' part is the whole read: nothing is left for the 3' part
@@ -223,7 +225,8 @@ SCENARIOS = {
             dict(demux="normal", times=2, n_ads=3), dict(demux="combi", paired=True, times=2), dict(demux="normal", casava=True),
             dict(demux="normal", paired=True, untrimout=True), dict(demux="normal", duntrim=True), dict(demux="combi", paired=True, duntrim=True),
             dict(demux="normal", paired=True, casava=True, minlen="6")],
-    "C04": [dict(polya=True, cores=2, buffer_size=250, n_reads=18), dict(polya=True, paired=True, cores=3, buffer_size=400, n_reads=16),
+    "C04": [dict(paired=True, info=True, dimers=True), dict(paired=True, info=True, dimers=True, cores=2, buffer_size=300, n_reads=14),
+            dict(polya=True, cores=2, buffer_size=250, n_reads=18), dict(polya=True, paired=True, cores=3, buffer_size=400, n_reads=16),
             dict(revcomp=True, cores=2, buffer_size=300, n_reads=16), dict(paired=True, info=True), dict(times=2, n_ads=3), dict(times=3, paired=True), dict(demux="combi", paired=True, duntrim=True),
             dict(maxaer="0.05"), dict(polya=True), dict(paired=True, polya=True, q="10")],
     "C10": [dict(cut1=[4, -3], rename="{id} cp={cut_prefix} cs={cut_suffix}", short_reads=True),
@@ -358,6 +361,8 @@ def _random_config(rng, focus, S):
             C["_tie"] = True
         if S.get("repeat"):
             C["_repeat"] = True
+        if S.get("dimers"):
+            C["_dimers"] = True
         if S.get("indexed_n"):
             C["index"] = True
             C["error_rate"] = rng.choice((0.1, 0.2, 0.25))
@@ -506,10 +511,16 @@ def drive(ctx, focus, n_runs, want, reads_per_run=(5, 9), config_hook=None, extr
     rng = ctx.rng
     events, samplers, failed = [], {}, []
     tries = 0
+    n_scen = 0
     extra = list(extra_configs)
     while (len(events) < n_runs or extra) and tries < n_runs * 4 + len(extra_configs):
         tries += 1
-        scen = pick(rng, SCENARIOS[focus]) if focus in SCENARIOS and rng.random() < 0.6 else None
+        # 60 % of the runs take a scenario of the property's list, in turn (every scenario is used equally often,
+        # whatever the seed); the rest are free random configurations
+        scen = None
+        if focus in SCENARIOS and rng.random() < 0.6:
+            scen = SCENARIOS[focus][n_scen % len(SCENARIOS[focus])]
+            n_scen += 1
         C = extra.pop() if extra else random_config(rng, focus, scen)
         if focus in ("C04", "C16", "C20", "C15") and rng.random() < 0.3:
             C["cores"] = rng.choice((2, 3))
